@@ -692,11 +692,35 @@ func init() {
 								}
 							}
 						}
+						if r.P(1, 6) {
+							// one float away from a side or a corner of the box, inside or outside: cuts are rounded onto the
+							// very line the vertex's other coordinate lies on
+							k := r.Intn(3)
+							if k != 1 {
+								p[0] = math.Nextafter(box[r.Intn(2)*2], []float64{math.Inf(-1), math.Inf(1)}[r.Intn(2)])
+							}
+							if k != 0 {
+								p[1] = box[1+r.Intn(2)*2]
+								if r.Bool() {
+									p[1] = math.Nextafter(p[1], []float64{math.Inf(-1), math.Inf(1)}[r.Intn(2)])
+								}
+							}
+						}
 						if r.P(1, 8) && len(line) > 0 { // axis-parallel step from the previous vertex
 							if r.Bool() {
 								p[0] = line[len(line)-1][0]
 							} else {
 								p[1] = line[len(line)-1][1]
+							}
+						}
+						if len(line) > 0 {
+							// (a segment whose ends differ by a few floats in one coordinate runs within rounding of a box line: where it
+							// crosses that line is decided by the rounding of the first cut, no answer is stable there. Such pairs are
+							// made exactly axis-parallel instead.)
+							for k := 0; k < 2; k++ {
+								if q := line[len(line)-1][k]; p[k] != q && math.Abs(p[k]-q) <= 64*math.Abs(math.Nextafter(q, math.Inf(1))-q) {
+									p[k] = q
+								}
 							}
 						}
 						line = append(line, p)
